@@ -13,6 +13,7 @@ LEVEL_TEXT = ("ConfWatcher.tla is a discrete-time model of the watcher loop (min
 LEVEL_NOTE = ("scenarios of <= 3 (thorough: 4) operations with pauses of 0 / 300 ms / 1.5 s, two layouts (regular file; symbolic "
               "link with targets in the same directory); quick replays a seeded sample of them; real-time runs that are not "
               "decisive are counted as inconclusive, never as verdicts; Linux inotify only")
+TECHNIQUE = "TLA+ discrete-time model (TLC): exhaustive bounded MC of all timing scenarios + scenarios replayed in real time on the real ConfWatcher + trace validation with timing margins"
 
 CFG = """SPECIFICATION %s
 CONSTANTS
